@@ -107,6 +107,31 @@ def main(tier: str) -> int:
             chk.fail("str(tree) does not print the expression the tree denotes", {"formulas": [getattr(n, "_value")._formula if hasattr(getattr(n, "_value", None), "_formula") else n._name for n in nodes_],
                                                                                   "got": got_s_, "reference": ref_s_, "value": got_v_, "reference_value": ref_v_},
                      {"fn": "__str__", "clause": "format_fields"})
+    # two operators may share a NAME: each function symbol computes and prints its own definition, whatever was created under that
+    # name before (by the user or by the library), and the library's names keep computing the library's functions
+    import operator as _op
+    f_one = FunctionalNode(create_operator("f({})", "f", "f", lambda a: -a))
+    f_two = FunctionalNode(create_operator("f({}, {})", "f", "f", lambda a, b: a - b))
+    user_div = FunctionalNode(create_operator("({} / {})", "div", "/", lambda a, b: a * 4.0 + b))       # NOT a division: a user's own "div"
+    user_exp = FunctionalNode(create_operator("exp({})", "exp", "exp", lambda a: a + 100.0))             # NOT an exponential
+    from thefittest.base._tree import init_symbolic_regression_uniset as _isru
+    us_lib = _isru(np.array([[0.5, 2.0], [1.5, 4.0]]), ("div", "exp", "add"))
+    lib = {n._name: n for n in us_lib._functional_set[1] + us_lib._functional_set[2]}
+    same_name_cases = (([f_two, xa, f_one, xb_], 12.0, "f(xa, f(xb))"), ([f_one, f_two, xb_, xa], -2.0, "f(f(xb, xa))"),
+                       ([user_div, xa, xb_], 27.0, "(xa / xb)"), ([user_exp, xa], 105.0, "exp(xa)"),
+                       ([lib["div"], xa, xb_], 5.0 / 7.0, "(xa / xb)"), ([lib["exp"], xa], float(np.exp(5.0)), "exp(xa)"))
+    for nodes_, ref_v_, ref_s_ in same_name_cases:
+        chk.case(("same_name", ref_s_, ref_v_))
+        chk.count("same_name_operators")
+        try:
+            tz = _Tree(nodes_)
+            got_v_, got_s_ = float(tz()), str(tz)
+        except Exception as e:  # noqa
+            got_v_, got_s_ = repr(e)[:120], None
+        if not (isinstance(got_v_, float) and abs(got_v_ - ref_v_) <= 1e-9 * max(1.0, abs(ref_v_))) or got_s_ != ref_s_:
+            chk.fail("calling a tree does not return the value of the expression it denotes", {"scenario": "two operators created under one name (the user's own and / or the library's)",
+                                                                                           "printed": got_s_, "reference": ref_s_, "value": got_v_, "reference_value": ref_v_},
+                     {"fn": "__call__", "clause": "same_name"})
     for ti, t in enumerate(trees):
         fl = sy.flat(t)
         ar = [int(a) for a in t._n_args]
